@@ -34,6 +34,11 @@ def programs(tier):
     out.append(("select", prog(2, [fixed("a", 1), worker("w"), worker("v"), select("s", ["w", "v"]), req("a", "s")]), [["start", "a"]]))
     # (no free-horizon program: the property speaks of problems with a horizon - without one the set is infinite)
     out.append(("zero", prog(2, [zero("a"), fixed("b", 2)]), [["start", "a"]]))
+    # no user horizon, but the timings are bounded by deadlines (the box covers them all)
+    out.append(("deadlines-no-horizon", prog(None, [fixed("a", 2, due_date=3), fixed("b", 1, due_date=2)], H=3), [["start", "a"]]))
+    # many tasks: 66 pinned ones and two free ones (the blocking clause has ~200 disjuncts)
+    wide = [fixed(f"p{i}", 1) for i in range(66)] + [con("TaskStartAt", f"s{i}", task=R(f"p{i}"), value=0) for i in range(66)] + [fixed("a", 1), fixed("b", 1)]
+    out.append(("wide", prog(2, wide), []))
     if tier == "thorough":
         out.append(("3F", prog(3, [fixed("a", 1), fixed("b", 1), fixed("c", 2), worker("w"), req("a", "w"), req("b", "w"), req("c", "w")]),
                     [["start", "a"], ["start", "c"]]))
@@ -112,7 +117,10 @@ def job(j):
             got = [o["timing"] for o in obs if o["kind"] == "solution"]
             if len(set(got)) != n:
                 record(hist, None, obs, (len(obs) - 1, f"visited {len(set(got))} of {n} timings"), "enumerate")
+        n_bad = 0
         for choices, env in (x for root in roots for x in ctl.explore_choices(runner, bound=bound, max_runs=j.get("max_runs", 3000), root=root)):
+            if n_bad >= 3:
+                break  # a broken implementation makes the order tree explode: three counterexamples are enough
             obs = env.obs
             res["runs"] += 1
             res["calls"] += len(hist)
@@ -121,10 +129,12 @@ def job(j):
             bad, p = judge(program, leaves, obs)
             res["states"].add(p.key())
             if bad:
+                n_bad += 1
                 record(hist, [pt["chosen"] for pt in env.points], obs, bad, "enumerate")
             elif bad is False:
                 got = [o["timing"] for o in obs if o["kind"] == "solution"]
                 if len(got) != len(set(got)) or len(set(got)) != n:
+                    n_bad += 1
                     record(hist, [pt["chosen"] for pt in env.points], obs, (len(obs) - 1, f"visited {len(set(got))} of {n} timings"), "enumerate")
         # (2) all short sequences over {another, another_for(v)} after solve (and before: the documented error)
         alphabet = [["another"]] + [["another_for", v] for v in menu]
@@ -227,8 +237,7 @@ def confirm(inst):
 def replay(inst):
     obs, leaves = replay_instance(inst)
     bad, p = judge(inst["program"], leaves, obs)
-    print(json.dumps({"violation": bad if bad else None, "observations": [dict(o, timing=list(o["timing"]) if o.get("timing") else None) for o in obs]},
-                     default=list)[:3000])
+    print(json.dumps({"violation": bad if bad else None, "observations": [[o["ev"][0], o["kind"], str(o.get("timing"))[:160]] for o in obs]}, default=list))
     return 1 if bad else 0
 
 
